@@ -9,5 +9,6 @@ CONSTANTS
   CFMT = {"text", "bin", "both", "def"}
   L = 1
   Alpha = "full"
+  Sim = FALSE
 CONSTRAINT Leaf
 CHECK_DEADLOCK FALSE
